@@ -12,8 +12,8 @@ EXTENDS Session, Json, IOUtils, Sequences
 Batch == JsonDeserialize(IOEnv.TRACE_FILE)
 Traces == Batch.traces
 
-VARIABLES tid, l, verdict
-tvars == <<vars, tid, l, verdict>>
+VARIABLES tid, l, verdict, reloaded
+tvars == <<vars, tid, l, verdict, reloaded>>
 
 T == Traces[tid].ev
 SetOf(s) == {s[i] : i \in 1..Len(s)}
@@ -21,7 +21,7 @@ KindOf(t) == [ops |-> SetOf(t.ops), bn |-> t.bn, an |-> t.an]
 
 TInit ==
   /\ tid \in 1..Len(Traces)
-  /\ l = 1 /\ verdict = "ok"
+  /\ l = 1 /\ verdict = "ok" /\ reloaded = FALSE
   /\ Init
   /\ kind = KindOf(Traces[tid])
   /\ anInit = Traces[tid].anInit
@@ -30,7 +30,9 @@ Judge(e) ==
   IF e.a = "Call" THEN
       IF e.argsChanged THEN "argument_modified"
       ELSE IF ~(SetOf(e.writes) \subseteq AllowedWrites(e.op)) THEN
-              (IF mode = "eval" THEN "state_written_in_eval" ELSE "undocumented_state_write")
+              (IF "an_init" \in SetOf(e.writes) /\ anInit
+               THEN (IF reloaded THEN "reinitialised_after_reload" ELSE "reinitialised")
+               ELSE IF mode = "eval" THEN "state_written_in_eval" ELSE "undocumented_state_write")
       ELSE IF MustRepeat(e.op) /\ e.repeat = "neq" THEN "repeat_differs"
       ELSE "ok"
   ELSE IF e.a = "SaveLoadFresh" THEN
@@ -42,6 +44,7 @@ Step ==
   /\ l' = l + 1 /\ tid' = tid
   /\ LET e == T[l] IN
        /\ verdict' = Judge(e)
+       /\ reloaded' = (reloaded \/ e.a = "SaveLoadFresh")
        /\ \/ (e.a = "Train" /\ Train)
           \/ (e.a = "Eval" /\ Eval)
           \/ (e.a = "TrainStep" /\ TrainStep)
